@@ -339,6 +339,7 @@ def aggregate(pid, prop, tier, cfgs, results, known, nreg, t0, extra_cov=None):
         ev["evaluations"] += j["evaluations"]; ev["lanes"] += j["lanes_compared"]; ev["nontrivial"] += j["nontrivial"]
         ev["distinct_max"] = max(ev["distinct_max"], j["distinct_nontrivial"]); ev["distinct_sum"] += j["distinct_nontrivial"]
         ev["known_excl"] += j["known_excluded"]; ev["na"] += j["not_applicable"]
+        ev["saturated"] = ev.get("saturated", False) or j.get("distinct_saturated", False)
         for k, v in j["classes"].items():
             classes[k] = classes.get(k, 0) + v
         for k, v in j["per_target"].items():
@@ -415,6 +416,7 @@ def aggregate(pid, prop, tier, cfgs, results, known, nreg, t0, extra_cov=None):
         "exhaustive": bool(domains),
         "exhaustive_domains": domains,
         "nontrivial_evaluations": ev["nontrivial"],
+        "distinct_count_saturated_at_2^22_per_config": ev.get("saturated", False),
         "distinct_nontrivial_sum_over_configs": ev["distinct_sum"],
         "lanes_compared": ev["lanes"],
         "classes": classes, "per_target": per_target, "per_op": per_op,
